@@ -2052,6 +2052,18 @@ class TupleParser:
         self.check_node(tup_tree, 'ERROR', ('CODE',), ('DESCRIPTION',),
                         ('INSTANCE',))
 
+        # The callers convert the CODE attribute to an integer.
+        code = attrs(tup_tree)['CODE']
+        try:
+            int(code)
+        except ValueError:
+            new_exc = CIMXMLParseError(
+                _format("Element {0!A} has invalid 'CODE' attribute value "
+                        "{1!A}", name(tup_tree), code),
+                conn_id=self.conn_id)
+            new_exc.__cause__ = None
+            raise new_exc
+
         # self.list_of_various() has the same effect as self.list_of_same()
         # when used with a single allowed child element, but is a little
         # faster.
